@@ -7,10 +7,11 @@ G = "crates/compiler/src/go/"
 types = [it for it in DCEFX.items if isinstance(it, Adt)]
 
 UNIT = Unit(
-    name="U-WHILE",
+    name="U-CTRL",
     properties=["C09"],
     rules=[("strip", "goast::"), ("strip", "goty::"), ("strip", "tast::"), ("strip", "anf::")],
-    describe="go::compile::compile_while: a `while` becomes `var c bool; for { <statements evaluating the condition into c>; "
+    describe="go::compile, control flow: (if) the EIf arms of compile_aexpr_effect / compile_aexpr_assign emit ONE Go `if` whose two blocks hold "
+             "exactly the statements of the respective branch — so only the selected branch is evaluated; (while) compile_while: a `while` becomes `var c bool; for { <statements evaluating the condition into c>; "
              "if !c { break }; <statements of the body> }` — the condition's statements sit INSIDE the loop, before the exit test, and the "
              "body after it, so the condition is re-evaluated before every iteration, the body runs only while it holds, nothing of either "
              "is emitted outside the loop",
@@ -33,5 +34,15 @@ UNIT = Unit(
                   ("    stmts\n}", "line-before", "proof { assert(while_shape(stmts@, cond, body, cond_var@)); }")],
            obligation="condition statements inside the loop before `if !c { break }`, body statements after it; nothing else",
            contract="ensures exists|c: Seq<char>| #[trigger] while_shape(r@, cond, body, c),"),
+        Fn(file=G + "compile.rs", name="compile_aexpr_effect", rename="if_effect", ret="r",
+           cut_from="let cond_e = compile_imm(goenv, &cond);", cut_before="@block-end", cut_tail="",
+           sig="fn if_effect(goenv: &GlobalGoEnv, gensym: &Gensym, cond: ImmExpr, then: Box<AExpr>, else_: Box<AExpr>) -> Vec<Stmt>",
+           obligation="an `if` in effect position: each branch's statements are inside its own block of ONE Go if statement",
+           contract="ensures if_shape(r@, cond, effect_stmts(*then), effect_stmts(*else_)),"),
+        Fn(file=G + "compile.rs", name="compile_aexpr_assign", rename="if_assign", ret="r",
+           cut_from="let cond_e = compile_imm(goenv, &cond);", cut_before="@block-end", cut_tail="",
+           sig="fn if_assign(goenv: &GlobalGoEnv, gensym: &Gensym, target: &String, cond: ImmExpr, then: Box<AExpr>, else_: Box<AExpr>) -> Vec<Stmt>",
+           obligation="an `if` whose value is stored: each branch's statements (incl. the store) are inside its own block of ONE Go if statement",
+           contract="ensures if_shape(r@, cond, assign_stmts(target@, *then), assign_stmts(target@, *else_)),"),
     ],
 )
